@@ -227,6 +227,78 @@ func genC09(tier string, rng *Rng) {
 		scs = append(scs, sc)
 		hist[mode+"-field-presence"]++
 	}
+	// the application keeps ONE message object per thing it controls and edits it in place between
+	// submissions (brightness 5 -> 7, a button ON -> DIMMED, "CAM 1" -> "CAM 2": same encoded size), each
+	// submission made after the previous one has reached the panel (seed C09-14: frames cached by object
+	// identity and size)
+	for _, asc := range []bool{false, true} {
+		cs := goodConn(1)
+		if asc {
+			cs = goodAscConn("HWC#1=Down")
+		}
+		sc := &Scenario{Entry: "client", Conns: []ConnScript{cs}, SubStart: 100, SameObjects: true, Alone: true}
+		var list []Submission
+		for k := 0; k < 8; k++ {
+			a := &rwp.InboundMessage{Command: &rwp.Command{PanelBrightness: &rwp.Brightness{LEDs: uint32(1 + k%8), OLEDs: uint32(8 - k%8)}}}
+			b := &rwp.InboundMessage{States: []*rwp.HWCState{{HWCIDs: []uint32{7}, HWCMode: &rwp.HWCMode{State: rwp.HWCMode_StateE(1 + k%5)}, HWCText: &rwp.HWCText{Title: fmt.Sprintf("CAM %d", 1+k%9), Formatting: 7}}}}
+			switch k % 3 {
+			case 0:
+				list = append(list, Submission{Msgs: []*rwp.InboundMessage{a}, Delay: 150})
+			case 1:
+				list = append(list, Submission{Msgs: []*rwp.InboundMessage{a, b}, Delay: 150})
+			default:
+				list = append(list, Submission{Msgs: []*rwp.InboundMessage{b}, Delay: 150}, Submission{Msgs: []*rwp.InboundMessage{b}, Delay: 150})
+			}
+		}
+		sc.Subs = [][]Submission{list}
+		sc.Cancel = 100 + 150*len(list) + 900
+		mode := "bin"
+		if asc {
+			mode = "asc"
+		}
+		sc.ID = mode + "-same-objects"
+		scs = append(scs, sc)
+		hist[mode+"-same-objects"]++
+	}
+	// the panel uses every flow word while the application submits: BSY / RDY / ping / ack / nack are
+	// messages for the application, the writer does not act on them (seed C09-13: the writer waited for
+	// RDY after a BSY)
+	for _, asc := range []bool{false, true} {
+		for _, words := range [][]int{{4}, {4, 5}, {5, 4, 1, 2, 3}} { // BSY; BSY RDY; RDY BSY ping ack nack
+			cs := ConnScript{End: "none"}
+			if asc {
+				cs.Items = []Item{{Kind: "ln", Data: Lit([]byte("RDY"))}}
+				cs.Segs = []SegCut{{0, 4}}
+				for i, wd := range words {
+					it := Item{Kind: "ln", Data: Lit([]byte(map[int]string{1: "ping", 2: "ack", 3: "nack", 4: "BSY", 5: "RDY"}[wd]))}
+					cs.Items = append(cs.Items, it)
+					cs.Segs = append(cs.Segs, SegCut{250 + 40*i, len(it.Encode())})
+				}
+			} else {
+				cs.Items = []Item{ackItem()}
+				cs.Segs = []SegCut{{0, 6}}
+				for i, wd := range words {
+					it := Item{Kind: "f", Data: Lit(mustMarshal(&rwp.OutboundMessage{FlowMessage: rwp.OutboundMessage_FlowMsg(wd)}))}
+					cs.Items = append(cs.Items, it)
+					cs.Segs = append(cs.Segs, SegCut{250 + 40*i, len(it.Encode())})
+				}
+			}
+			sc := &Scenario{Entry: "client", Conns: []ConnScript{cs}, SubStart: 100}
+			var list []Submission
+			for j := 0; j < 8; j++ {
+				list = append(list, Submission{Msgs: []*rwp.InboundMessage{randInMsg(rng, uint32(900+2*j), false)}, Delay: 100})
+			}
+			sc.Subs = [][]Submission{list}
+			sc.Cancel = 100 + 100*8 + 900
+			mode := "bin"
+			if asc {
+				mode = "asc"
+			}
+			sc.ID = fmt.Sprintf("%s-flow-words-%d", mode, len(words))
+			scs = append(scs, sc)
+			hist[mode+"-flow-words"]++
+		}
+	}
 	// a slow consumer of msgsFromPanel: the panel sends an event, the application picks it up
 	// only after 3 s; submissions made meanwhile (and after) must all reach the panel
 	for _, asc := range []bool{false, true} {
